@@ -26,3 +26,7 @@ Definition normalize_columns (s : list nat) (st : blocks (@blk R)) : blocks (@bl
     else if k =? length s then st k i r * prodF Rops (map (fun k' => colnorm s st k' r) (seq 0 (length s)))
     else st k i r.
 Definition cp_normalize_R (s : list nat) (st : blocks (@blk R)) : blocks (@blk R) := normalize_columns s (absorb_weights s st).
+(* cp_normalize on (weights, factors) given as data, over the reals: the transcription above between blocks_of and data_of_blocks
+   (the fl_norm of Model/Errors.v:fl_loop for parafac(normalize_factors=True)) *)
+Definition cp_normalize_data_R (s : list nat) (Rk : nat) (st : @cpstate R) : @cpstate R :=
+  data_of_blocks s Rk (cp_normalize_R s (blocks_of Rops (fst st) (snd st))).
